@@ -139,6 +139,39 @@ def LState.init (defs : List (Nat × Table)) : LState := { regions := [], next :
 
 def Linear {κ : Type} (defs : List (Nat × Table)) (hist : List (Op κ)) : Bool := linearFrom defs (LState.init defs) hist
 
+/-! ### which sharing a non-Linear history exposes
+
+`lforce` is `lstep` made total: when the step breaks linearity it still advances (as the heap semantics
+does) and names the REGION whose sharing the step exposes.  A region below `defs.length` is a package-level
+default table (known finding C08-alias-default); any other region is a table built by add / compromise /
+json whose receiver was re-weighted in place (known finding C08-receiver-mutated). -/
+
+def regionOf (st : LState) (h : Nat) : Nat := (st.regions[h]?).getD 0
+
+def lforce {κ : Type} (defs : List (Nat × Table)) (st : LState) (op : Op κ) : LState × Option Nat :=
+  match lstep defs st op with
+  | some st' => (st', none)
+  | none =>
+    match op with
+    | .get id => match indexOfId defs id with
+      | some r => ({ st with regions := st.regions ++ [r] }, some r)
+      | none => (st.fresh, none)
+    | .reweight _ _ => (st.fresh, none)
+    | .add h1 h2 => (st.fresh, some (if st.readable h1 then regionOf st h2 else regionOf st h1))
+    | .compromise h1 h2 _ => (st.fresh, some (if st.readable h1 then regionOf st h2 else regionOf st h1))
+    | .json h => (st.fresh, some (regionOf st h))
+    | .observe h => (st.fresh, some (regionOf st h))
+
+/-- the regions exposed by the linearity breaks of a history, in order -/
+def breaksFrom {κ : Type} (defs : List (Nat × Table)) : LState → List (Op κ) → List Nat
+  | _, [] => []
+  | st, op :: rest =>
+    match (lforce defs st op).2 with
+    | some r => r :: breaksFrom defs (lforce defs st op).1 rest
+    | none => breaksFrom defs (lforce defs st op).1 rest
+
+def breaks {κ : Type} (defs : List (Nat × Table)) (hist : List (Op κ)) : List Nat := breaksFrom defs (LState.init defs) hist
+
 /-! ## C18: tables as maps -/
 
 /-- all (letter, triplet, weight) entries in table order -/
@@ -205,28 +238,44 @@ def isSumOf (t1 t2 r : Table) : Bool :=
 /-- exact share on the 10000 scale -/
 def shareFloor (w total : Int) : Int := (10000 * w) / total
 
-/-- what the compromise weight of one codon may be: `f`, `s` the two exact shares, cut-off weight known to lie
-in `[cwLo, cwHi]`, rounding tolerance `tol` on the 10000 scale: 0 when a share is below the cut-off, the mean
-otherwise; a share within the tolerance of the cut-off may go either way -/
-def compromiseWeightOk (tol cwLo cwHi f s w : Int) : Bool :=
-  let lo := min f s
-  let mean := (f + s) / 2
-  let okMean := decide (mean - tol ≤ w ∧ w ≤ mean + tol)
-  if lo + tol < cwLo then w == 0
-  else if lo - tol ≥ cwHi then okMean
-  else w == 0 || okMean
+/-- the values `int(float64(w)/float64(total)*10000)` can take for `0 ≤ w ≤ total`, `0 < total < 2^53`:
+the exact share `⌊10000·w/total⌋`, except that when `10000·w/total` is an INTEGER (other than through
+`w = 0` or `w = total`, which float64 computes exactly) the two roundings may land just below it and the
+truncation then gives one less.  A non-integer quotient is at least `1/total` away from an integer, far
+more than the rounding error, so it is truncated exactly. -/
+def shareCands (w total : Int) : List Int :=
+  let f := shareFloor w total
+  if w = 0 ∨ w = total then [f] else if (10000 * w) % total = 0 then [f, f - 1] else [f]
 
-/-- judge predicate for CompromiseCodonTable -/
-def isCompromiseOf (tol cwLo cwHi : Int) (t1 t2 r : Table) : Bool :=
+/-- the rule of one codon for given integer shares and cut-off weight (all three exact in float64 once they are integers) -/
+def ruleInt (cw f s : Int) : Int := if f < cw ∨ s < cw then 0 else (f + s) / 2
+
+/-- every weight the rule can produce from the candidate shares and candidate cut-off weights -/
+def ruleCands (fs ss cws : List Int) : List Int :=
+  fs.flatMap fun f => ss.flatMap fun s => cws.map fun cw => ruleInt cw f s
+
+/-- judge predicate for CompromiseCodonTable.  `cws` = the values `int(10000·c)` can take (one value unless
+`10000·c` is within float rounding of the next integer).  Outside those one-unit ambiguity bands the
+verdict is exact: a wrong comparison operator at the cut-off, a mean off by one, a zero that should not
+be one are failures. -/
+def isCompromiseOf (cws : List Int) (t1 t2 r : Table) : Bool :=
   let e1 := entries t1
   let e2 := entries t2
   keepsCode t1 r && (entries r).all fun e =>
-    compromiseWeightOk tol cwLo cwHi
-      (shareFloor (weightAtE e1 e.1 e.2.1) (totalOfE e1 e.1)) (shareFloor (weightAtE e2 e.1 e.2.1) (totalOfE e2 e.1)) e.2.2
+    (ruleCands (shareCands (weightAtE e1 e.1 e.2.1) (totalOfE e1 e.1)) (shareCands (weightAtE e2 e.1 e.2.1) (totalOfE e2 e.1)) cws).contains e.2.2
 
-/-- "never rarer than the cut-off in either organism": codon `x` under letter `l` -/
-def notRare (tol cwLo : Int) (t1 t2 : Table) (l x : Str) : Bool :=
-  decide (shareFloor (weightAt t1 l x) (totalOf t1 l) + tol ≥ cwLo) && decide (shareFloor (weightAt t2 l x) (totalOf t2 l) + tol ≥ cwLo)
+/-- "never rarer than the cut-off in either organism": codon `x` under letter `l` (with the same candidates) -/
+def notRare (cws : List Int) (t1 t2 : Table) (l x : Str) : Bool :=
+  let fs := shareCands (weightAt t1 l x) (totalOf t1 l)
+  let ss := shareCands (weightAt t2 l x) (totalOf t2 l)
+  fs.any fun f => ss.any fun s => cws.any fun cw => decide (cw ≤ f ∧ cw ≤ s)
+
+/-- codon.Optimize can encode residue `l` with table `t`: some codon listed under `l` has more than a 10 % share
+(`float64(w)/float64(Σ) > 0.10`, i.e. `10·w > Σ`) -/
+def encodable (t : Table) (l : Str) : Bool :=
+  let E := entries t
+  let tot := totalOfE E l
+  E.any fun e => e.1 == l && decide (10 * e.2.2 > tot)
 
 /-- symmetry as maps -/
 def sameWeights (r12 r21 : Table) : Bool :=
